@@ -244,6 +244,10 @@ func TestC15(t *testing.T) {
 				}
 			}
 		}
+		if len(body) > 0 && rng.IntN(4) == 0 {
+			hdrs = append(hdrs, app.Hdr{Name: app.HdrChunked, Value: "1"}) // same body, no announced length
+			r.Count("chunked_request_bodies", 1)
+		}
 		fwd := map[string]string{}
 		for _, h := range []struct{ n, v string }{{"X-Forwarded-Method", "DELETE"}, {"X-Forwarded-Uri", "/p0/evil?x=1"}, {"X-Forwarded-Path", "/p0/evil"},
 			{"X-Forwarded-For", "1.2.3.4"}, {"X-Forwarded-Proto", "https"}, {"X-Forwarded-Host", "evil.example.com"}, {"Forwarded", "for=9.9.9.9;proto=https"}} {
